@@ -359,6 +359,8 @@ func strMatch(L *LState) int {
 	offset--
 	if offset < 0 {
 		offset = 0
+	} else if offset > l {
+		offset = l
 	}
 
 	mds, err := pm.Find(pattern, unsafeFastStringToReadOnlyBytes(str), offset, 1)
